@@ -98,6 +98,50 @@ def grid_one(run, dim, height, periodic, order):
     return name, ncell, summary, viol, (res.lines[len(res.lines) // 2] if res.lines else None)
 
 
+def grid_deep(run, dim, level, periodic, nshards_pick):
+    """Deep cells (indices up to 62 bits): TLC computes parents / neighbours / interaction lists on limb-wise coordinates (GridDeep.tla)."""
+    name = "griddeep%s-d%d-l%d" % ("-per" if periodic else "", dim, level)
+    binp = need(build("conf_grid_morton_%d_%d" % (dim, int(periodic)), "conf_grid.cpp", ["DIMV=%d" % dim, "PERIODICV=%d" % int(periodic), "ORDERV=0"]), run)
+    c = cfg("Spec", dict(Dim=dim, Level=level, Periodic=periodic, LimbBits=15, Shard=0, NbShards=nshards_pick), ["ArithmeticOK", "ILOffsetRule", "Emit"])
+    res = run_tlc("GridDeep", c, workers=1, timeout=900, tag=name)
+    run.add_tlc(name, res, note="GridDeep.tla: sampled deep cells (limbs all 0 / all 1 / around carries), dimension %d level %d (index of %d bits)" % (dim, level, dim * level))
+    if res.violated:
+        run.machinery_errors.append("TLC: %s of GridDeep.tla violated (%s)" % (res.violated, res.logpath))
+    recs = []
+    for r in res.lines:
+        if r.get("k") != "deep":
+            continue
+        nl = len(r["c"][0])
+        v = [r["level"], nl, 15]
+        for cd in r["c"]:
+            v += list(cd)
+        for cd in r["parent"]:
+            v += list(cd)
+        v.append(r["cc"])
+        for lst in (r["nb"], r["il"]):
+            v.append(len(lst))
+            for e in lst:
+                for cd in e["c"]:
+                    v += list(cd)
+                v.append(e["code"])
+        recs.append(" ".join(map(str, v)))
+    rc, out, err = run_bin(binp, ["deep", level + 1], stdin_text="\n".join(recs) + "\n", timeout=300)
+    mism, summary = parse_harness_output(out)
+    if summary is None:
+        run.violation("Crash:" + name, "conf_grid deep did not finish (exit %s): hang or fault on deep indices: %s" % (rc, (err or out)[-200:]), run.write_replay("Crash-" + name, {"kind": "griddeep", "dim": dim, "level": level, "periodic": periodic, "shards": nshards_pick}))
+        return
+    run.add_harness(name, summary, rc)
+    run.coverage["traces_validated_against_impl"] += len(recs)
+    run.coverage["evaluations"] += summary.get("checks", 0)
+    run.coverage["distinct_nontrivial"] += len(recs)
+    seen = set()
+    for kind, key, text in mism:
+        if (kind, key) in seen:
+            continue
+        seen.add((kind, key))
+        run.violation(kind + ":" + key, text, run.write_replay(kind + "-" + key, {"kind": "griddeep", "dim": dim, "level": level, "periodic": periodic, "shards": nshards_pick, "key": key}))
+
+
 @check("C11", "model_checking")
 def check_c11(run):
     if run.tier == "quick":
@@ -123,12 +167,19 @@ def check_c11(run):
             replay = run.write_replay(key, dict(rp or {}, key=key, text=text)) if rp else None
             run.violation(key, text, replay)
     run.coverage["distinct_nontrivial"] = total_cells
+    # deep cells: indices of 40-62 bits
+    deep = [(1, 40, False, 1), (1, 62, False, 1), (2, 30, False, 2), (3, 20, False, 64), (4, 15, False, 1), (1, 45, True, 1), (2, 31, True, 2), (3, 20, True, 64)]
+    if run.tier == "thorough":
+        deep = [(1, 40, False, 1), (1, 62, False, 1), (1, 31, False, 1), (2, 30, False, 1), (2, 31, False, 1), (3, 20, False, 8), (3, 17, False, 8), (4, 15, False, 1),
+                (1, 45, True, 1), (1, 62, True, 1), (2, 31, True, 1), (3, 20, True, 8), (4, 15, True, 1)]
+    with ThreadPoolExecutor(max_workers=4) as ex:
+        list(ex.map(lambda d: grid_deep(run, *d), deep))
     run.coverage["rule"] = ("every cell of every level of each (dimension, height, periodicity, ordering) grid is one case; "
                             "TLC evaluates the Grid axioms on it and prints its parent, child code, interaction and neighbour lists with codes; "
                             "conf_grid compares the library's per-cell and per-group builders (self-inclusion and upper-half filters on and off) with them; "
                             "for the Hilbert ordering the coordinate table is dumped from the library and the axioms are evaluated by TLC on that table")
     run.coverage["exhaustive"] = True
-    run.assumptions += ["heights bounded as listed in tlc_runs; deep indices (up to 63 bits) are not covered by this check",
+    run.assumptions += ["exhaustive for the bounded heights listed in tlc_runs; deep levels (indices of 40-62 bits) are sampled at limb extremes and carry boundaries by GridDeep.tla, not exhaustively",
                         "TLC's evaluation of Grid.tla is trusted; conf_grid decodes position codes with its own arithmetic"]
 
 
